@@ -68,7 +68,7 @@ def block_name(cfg, model0):
     return name
 
 
-def explore_block(acc, cfg, depth):
+def explore_block(acc, cfg, depth, coarse=False):
     blk, model0 = make_block(cfg)
     lo, hi = min(model0), max(model0)
     n = len(model0)
@@ -76,6 +76,17 @@ def explore_block(acc, cfg, depth):
     counts = list(range(1, n + 3))
     cname = 'sequential' if cfg[0] == 'seq' else 'sparse'
     cfgname = block_name(cfg, model0)
+    if coarse:
+        # the block carries something that differs with every call (states did not merge): key = what the public
+        # interface shows (cells, start address, default value)
+        def bkey(b):    # noqa: F811
+            try:
+                cells = tuple(sorted(list(b))) if not isinstance(b.values, dict) else tuple(sorted(b.values.items()))
+            except Exception:   # noqa
+                cells = repr(getattr(b, 'values', None))
+            return (cells, getattr(b, 'address', None), getattr(b, 'default_value', None))
+    else:
+        bkey = globals()['bkey']
     reps = {}
     k0 = (bkey(blk), tuple(sorted(model0.items())))
     reps[k0] = blk
@@ -187,7 +198,10 @@ def explore_block(acc, cfg, depth):
             elif got != m2:
                 bad('wrong-cells', 'cells %r, expected %r' % (sorted(got.items())[:6], sorted(m2.items())[:6]))
 
-    st, _ = states.bfs_snapshot([k0], events, step, on_edge=on_edge, max_depth=depth)
+    st, _ = states.bfs_snapshot([k0], events, step, on_edge=on_edge, max_depth=depth, max_states=None if coarse else 6000)
+    if not coarse and st.states >= 6000:
+        acc.cap('state-merging-defeated:' + cfgname)
+        return explore_block(acc, cfg, depth, coarse=True)
     acc.inc('states', st.states)
     acc.inc('transitions', st.transitions)
     acc.add('nontrivial', cfgname)
@@ -428,7 +442,18 @@ def explore_server(acc, single, init_ids, depth):
             if reg != model_after:
                 bad('map-differs', 'registered %r, expected %r' % (sorted(reg.items()), sorted(model_after.items())))
 
-    st = states.bfs_replay(build, events, canon, check=check, max_depth=depth)
+    st = states.bfs_replay(build, events, canon, check=check, max_depth=depth, max_states=20000)
+    if st.states >= 20000:
+        # the context carries something that differs with every call: canonical form = the registered map only
+        acc.cap('state-merging-defeated:' + cfgname)
+
+        def coarse(objs):
+            sc, model, names, obs = objs
+            try:
+                return (sc.single, tuple(sorted((k, names.get(id(v), '?')) for k, v in list(sc))))
+            except Exception:   # noqa
+                return repr(sorted(model.items()))
+        st = states.bfs_replay(build, events, coarse, check=check, max_depth=depth)
     acc.inc('states', st.states)
     acc.inc('transitions', st.transitions)
     acc.add('nontrivial', cfgname)
